@@ -203,6 +203,21 @@ CLAIMED["C17"] = dict(
     technique="Coq proof (generic frame theorem for append-only traversals) + before/after sweep over 48 entry points",
     design="4/C17")
 
+CLAIMED["C04"] = dict(
+    text=("Building a Partial / ArgFactory and calling the result are modelled on the heap (Partial.v): promotion of "
+          "containers that hold factories, a fresh wrapper per bound factory, the keyword order of the layered "
+          "functools.partial / arg_factory.partial object, call-time merge (keywords override in place), invocation "
+          "of factories with per-argument memoization, copy of exactly the container spine that holds factories. "
+          "Theorems: calls only append to the heap (build-time objects are reused, never modified; objects made by "
+          "different calls are disjoint), a call-time keyword replaces exactly the configured value of that name, "
+          "a structure without factories is passed through uncopied. In Coq, the objects received by the recording "
+          "callable over 1-4 calls are compared with the model under ONE bijection threaded through all calls "
+          "(so sharing between calls and with build time is checked); the oracle checks override, reuse and "
+          "freshness per argument from the property text."),
+    note=COMMON_NOTE + " functools.partial is CPython; its merge is modelled and validated by the stream.",
+    technique="Coq proof (append-only calls, override, pass-through) + multi-call correspondence under one bijection",
+    design="4/C04")
+
 PENDING_REASON = "check not built yet in this session (work in progress; see DESIGN.md section 4)"
 
 
